@@ -39,7 +39,9 @@ func verifyFat(fr io.ReaderAt, infoPlist, resources []byte, opts signers.VerifyO
 	var sigs []*signers.Signature
 	for _, arch := range fatFile.Arches {
 		r := io.NewSectionReader(fr, int64(arch.Offset), int64(arch.Size))
-		sig, err := verifyMacho(r, nil, nil, opts)
+		// every slice has its own code directory binding the bundle's
+		// Info.plist and resource manifest
+		sig, err := verifyMacho(r, infoPlist, resources, opts)
 		if err != nil {
 			return nil, fmt.Errorf("%s.%d: %w", arch.Cpu, arch.SubCpu, err)
 		}
